@@ -184,7 +184,8 @@ def whole_carts(ctx, rnd):
         except Exception as e:  # noqa
             ctx.violation('png-write-raises/%s' % type(e).__name__, 'writing / decoding a .p8.png raised %s' % str(e)[:80], {'kind': 'png', 'pat': list(pat)})
             continue
-        ptraces.append({'mem': list(mem), 'area': [], 'code': [], 'version': 8 + k, 'pixels': px, 'focus': 'C16'})
+        ptraces.append({'mem': list(mem), 'area': [], 'code': [], 'version': 8 + k, 'pixels': px, 'focus': 'C16', 'outcome': 'ok', 'rawLen': 0, 'compLen': 0,
+                        'rb': {'checked': False, 'diff': [], 'code': [], 'version': 0}})
         pmeta.append('png%d' % k)
     if ptraces:
         c = json.loads(json.dumps(ptraces[0]))
@@ -241,7 +242,8 @@ def reference_pairs(ctx, rnd):
         idxs = [i for i in sample_idxs(rnd, 600) if i < 0x4300]
         px, dims = png_pixels(pngbytes, pngbytes, idxs)
         mm = bytearray(m1)
-        ptraces.append({'mem': list(mm), 'area': [], 'code': [], 'version': g2.version, 'pixels': [p for p in px if not (0x3100 <= p['i'] < 0x3200 and (p['i'] - 0x3100) % 4 == 3)], 'focus': 'C16'})
+        ptraces.append({'mem': list(mm), 'area': [], 'code': [], 'version': g2.version, 'pixels': [p for p in px if not (0x3100 <= p['i'] < 0x3200 and (p['i'] - 0x3100) % 4 == 3)], 'focus': 'C16',
+                        'outcome': 'ok', 'rawLen': 0, 'compLen': 0, 'rb': {'checked': False, 'diff': [], 'code': [], 'version': 0}})
         pmeta.append(name)
     tf = os.path.join(ctx.tmp, 'table.json')
     if traces:
